@@ -25,6 +25,16 @@ theorem geometryEqual_iff (g h : Geom) (tol : Option Rat) :
 theorem geometryEqual_total (g h : Geom) (tol : Option Rat) : ∃ b, geometryEqual g h tol = .ok b :=
   Match.geometryEqual_total g h tol
 
+/-- **`geometry_equal` ignores channels**: the translated decision is handed the channel extents of
+both arrays (`shape` = spatial shape + channel extent) and does not depend on them — a volume with
+two channels, one with five and a bare `VolumeGeometry` compare equal iff their *spatial* shapes,
+coordinate systems, affines and frames of reference agree. -/
+theorem geometryEqual_ignores_channels (g h : Geom) (cg ch cg' ch' : Int) (tol : Option Rat) :
+    geometryEqualC g h cg ch tol = geometryEqualC g h cg' ch' tol ∧
+    geometryEqualC g h cg ch tol = geometryEqual g h tol := by
+  rw [geometryEqualC_eq, geometryEqualC_eq]
+  exact ⟨rfl, rfl⟩
+
 /-- A conflicting frame of reference alone makes the answer no, whatever the affines are. -/
 theorem geometryEqual_for_conflict (g h : Geom) (tol : Option Rat) (u v : String)
     (hg : g.frameOfRef = some u) (hh : h.frameOfRef = some v) (huv : u ≠ v) :
@@ -38,33 +48,90 @@ theorem geometryEqual_for_conflict (g h : Geom) (tol : Option Rat) (u v : String
 
 /-! ## Clause 2a: what `match_geometry` returns (soundness) -/
 
-/-- **`match_sound`**: whenever `match_geometry` returns a volume `r`,
+/-- **`match_sound`** (every padding mode, any voxel type — scalars or vectors of channel values):
+whenever `match_geometry` returns a volume `r`,
 * the geometry of `r` equals the target (`geometry_equal(r, target, tol)` as characterised by
-  `geometryEqual_iff`: same shape, coordinate system, affine within tolerance, no conflicting frame
-  of reference), and
+  `geometryEqual_iff`), and
 * for every voxel `k` of `r`: if a voxel `i` of the source sits at the same physical position then
-  `r` carries the source value there; if no voxel of the source sits there, `r` carries the padding
-  value.
-For every source whose affine matrix is non-singular, every target, tolerance and padding value. -/
-theorem match_sound {α : Type} (src : Vol α) (tgt : Geom) (tol : Rat) (c : α) (r : Vol α)
-    (hdet : src.geom.aff.det ≠ 0) (h : matchGeometry src tgt tol c = .ok r) :
+  `r` carries the source value there; if no voxel of the source sits there, then the position is a
+  point `j` of the source's grid *outside* the source and `r` carries the value the padding mode
+  assigns to `j` (`PadMode.fill`: the constant; the nearest source voxel for EDGE; the statistic
+  of the source for MINIMUM / MAXIMUM / MEAN / MEDIAN).
+For every source with non-singular affine, every target and tolerance; a statistic only has to be
+independent of the order of the axes (`StatLaw`). -/
+theorem match_sound {α : Type} (src : Vol α) (tgt : Geom) (tol : Rat) (mode : PadMode α) (hlaw : StatLaw mode)
+    (r : Vol α) (hdet : src.geom.aff.det ≠ 0) (h : matchGeometry src tgt tol mode = .ok r) :
     geometryEqual r.geom tgt (some tol) = .ok true ∧
     ∀ k, InShape r.geom.shape k →
       (∀ i, InShape src.geom.shape i → src.geom.toRef (toRat i) = r.geom.toRef (toRat k) → r.vox k = src.vox i) ∧
-      ((∀ i, InShape src.geom.shape i → src.geom.toRef (toRat i) ≠ r.geom.toRef (toRat k)) → r.vox k = c) := by
-  obtain ⟨_, _, _, _, _, _, _, _, _, _, hge⟩ := matchGeometry_ok src tgt tol c r h
-  obtain ⟨m, hm⟩ := matchGeometry_prov src tgt tol c r h
+      ((∀ i, InShape src.geom.shape i → src.geom.toRef (toRat i) ≠ r.geom.toRef (toRat k)) →
+        ∃ j, ¬ InShape src.geom.shape j ∧ src.geom.toRef (toRat j) = r.geom.toRef (toRat k) ∧
+          r.vox k = mode.fill src j) := by
+  obtain ⟨_, _, _, _, _, _, _, _, _, _, hge⟩ := matchGeometry_ok src tgt tol mode r h
+  obtain ⟨m, hm⟩ := matchGeometry_prov src tgt tol mode hlaw r h
   exact ⟨hge, fun k hk => hm.coincide hdet k hk⟩
 
+/-- CONSTANT mode: voxels that overlap no source voxel are the constant. -/
+theorem match_sound_constant {α : Type} (src : Vol α) (tgt : Geom) (tol : Rat) (c : α) (r : Vol α)
+    (hdet : src.geom.aff.det ≠ 0) (h : matchGeometry src tgt tol (.constant c) = .ok r) (k : Ax → Int)
+    (hk : InShape r.geom.shape k)
+    (hno : ∀ i, InShape src.geom.shape i → src.geom.toRef (toRat i) ≠ r.geom.toRef (toRat k)) : r.vox k = c := by
+  obtain ⟨j, _, _, hv⟩ := ((match_sound src tgt tol (.constant c) trivial r hdet h).2 k hk).2 hno
+  exact hv
+
+/-- EDGE mode: *every* voxel of the result — overlapping or not — carries the value of the source
+voxel nearest, axis by axis, to the source-grid point `j` at its position. -/
+theorem match_sound_edge {α : Type} (src : Vol α) (tgt : Geom) (tol : Rat) (r : Vol α)
+    (hdet : src.geom.aff.det ≠ 0) (h : matchGeometry src tgt tol .edge = .ok r) (k : Ax → Int)
+    (hk : InShape r.geom.shape k) :
+    ∃ j, src.geom.toRef (toRat j) = r.geom.toRef (toRat k) ∧ r.vox k = src.vox (clampIdx src.geom.shape j) := by
+  obtain ⟨_, hvox⟩ := match_sound src tgt tol .edge trivial r hdet h
+  obtain ⟨hin, hout⟩ := hvox k hk
+  by_cases hex : ∃ i, InShape src.geom.shape i ∧ src.geom.toRef (toRat i) = r.geom.toRef (toRat k)
+  · obtain ⟨i, hi, heq⟩ := hex
+    refine ⟨i, heq, ?_⟩
+    rw [hin i hi heq]
+    congr 1
+    funext a
+    have := hi a
+    simp only [clampIdx]
+    omega
+  · obtain ⟨j, _, heq, hv⟩ := hout (fun i hi heq => hex ⟨i, hi, heq⟩)
+    exact ⟨j, heq, hv⟩
+
+/-- MINIMUM / MAXIMUM / MEAN / MEDIAN (whole array or per channel): voxels that overlap no source
+voxel carry the statistic *of the source*. -/
+theorem match_sound_stat {α : Type} (src : Vol α) (tgt : Geom) (tol : Rat) (f : Vol α → α)
+    (hlaw : ∀ (v w : Vol α) (p : Ax → Ax), permute v p = .ok w → f w = f v) (r : Vol α)
+    (hdet : src.geom.aff.det ≠ 0) (h : matchGeometry src tgt tol (.stat f) = .ok r) (k : Ax → Int)
+    (hk : InShape r.geom.shape k)
+    (hno : ∀ i, InShape src.geom.shape i → src.geom.toRef (toRat i) ≠ r.geom.toRef (toRat k)) : r.vox k = f src := by
+  obtain ⟨j, _, _, hv⟩ := ((match_sound src tgt tol (.stat f) hlaw r hdet h).2 k hk).2 hno
+  exact hv
+
+/-- **Channel dimensions.**  A volume with channel dimensions is a volume whose voxels are vectors
+`Ch → β`; matching moves whole vectors: channel `ch` of a result voxel is channel `ch` of the source
+voxel at the same position (channels are never mixed, permuted or resampled), and CONSTANT padding
+puts the same scalar into every channel. -/
+theorem match_sound_channels {Ch β : Type} (src : Vol (Ch → β)) (tgt : Geom) (tol : Rat) (c : β) (r : Vol (Ch → β))
+    (hdet : src.geom.aff.det ≠ 0) (h : matchGeometry src tgt tol (.constant fun _ => c) = .ok r) (k : Ax → Int)
+    (hk : InShape r.geom.shape k) (ch : Ch) :
+    (∀ i, InShape src.geom.shape i → src.geom.toRef (toRat i) = r.geom.toRef (toRat k) → r.vox k ch = src.vox i ch) ∧
+    ((∀ i, InShape src.geom.shape i → src.geom.toRef (toRat i) ≠ r.geom.toRef (toRat k)) → r.vox k ch = c) := by
+  obtain ⟨_, hvox⟩ := match_sound src tgt tol (.constant fun _ => c) trivial r hdet h
+  obtain ⟨hin, _⟩ := hvox k hk
+  refine ⟨fun i hi heq => by rw [hin i hi heq], fun hno => ?_⟩
+  rw [match_sound_constant src tgt tol (fun _ => c) r hdet h k hk hno]
+
 /-- In particular the returned volume has the target's shape and coordinate system. -/
-theorem match_shape {α : Type} (src : Vol α) (tgt : Geom) (tol : Rat) (c : α) (r : Vol α)
+theorem match_shape {α : Type} (src : Vol α) (tgt : Geom) (tol : Rat) (c : PadMode α) (r : Vol α)
     (h : matchGeometry src tgt tol c = .ok r) : (∀ a, r.geom.shape a = tgt.shape a) ∧ r.geom.cs = tgt.cs := by
   obtain ⟨_, _, _, _, _, _, _, _, _, _, hge⟩ := matchGeometry_ok src tgt tol c r h
   have := (geometryEqual_iff _ _ _).mp hge
   exact ⟨this.1, this.2.1⟩
 
 /-- A target in another frame of reference or another coordinate system is refused. -/
-theorem match_refuses_conflict {α : Type} (src : Vol α) (tgt : Geom) (tol : Rat) (c : α)
+theorem match_refuses_conflict {α : Type} (src : Vol α) (tgt : Geom) (tol : Rat) (c : PadMode α)
     (h : (∃ u v, src.geom.frameOfRef = some u ∧ tgt.frameOfRef = some v ∧ u ≠ v) ∨ src.geom.cs ≠ tgt.cs) :
     matchGeometry src tgt tol c = .error .runtime := by
   unfold matchGeometry
@@ -80,7 +147,7 @@ returns is obtained from the source's by `permute_spatial_axes` / `pad` / slice-
 (with `match_sound`) a target is matched only if it equals, within the tolerance, a geometry
 reachable from the source by permutation, flips, integer-stride cropping and padding; any other
 target (sub-voxel shift, non-integer scale, rotation beyond the tolerance) is refused. -/
-theorem match_only_reachable {α : Type} (src : Vol α) (tgt : Geom) (tol : Rat) (c : α) (r : Vol α)
+theorem match_only_reachable {α : Type} (src : Vol α) (tgt : Geom) (tol : Rat) (c : PadMode α) (r : Vol α)
     (h : matchGeometry src tgt tol c = .ok r) :
     Chain src.geom r.geom ∧ NormalForm src.geom r.geom ∧ geometryEqual r.geom tgt (some tol) = .ok true := by
   have hc := matchGeometry_chain src tgt tol c r h
@@ -115,7 +182,7 @@ source voxel), has at least one voxel per axis, lives in the same coordinate sys
 conflicting frame of reference, and the source is well formed (orthonormal unit vectors, positive
 spacings), then `match_geometry` succeeds for every tolerance `0 < tol ≤ 1`, and the volume it
 returns has *exactly* the target's affine matrix and shape. -/
-theorem match_complete {α : Type} (src : Vol α) (tgt : Geom) (tol : Rat) (c : α)
+theorem match_complete {α : Type} (src : Vol α) (tgt : Geom) (tol : Rat) (c : PadMode α)
     (hwf : WF src.geom) (hshape : ∀ i, 1 ≤ tgt.shape i) (h0 : 0 < tol) (h1 : tol ≤ 1)
     (hr : Reachable src.geom tgt) :
     ∃ r, matchGeometry src tgt tol c = .ok r ∧ (∀ i, r.geom.col i = tgt.col i) ∧ r.geom.pos = tgt.pos ∧
@@ -126,7 +193,7 @@ theorem match_complete {α : Type} (src : Vol α) (tgt : Geom) (tol : Rat) (c : 
 finite chain of `permute_spatial_axes`, `pad` and indexing with slices (crop of a prefix, suffix or
 interior, any positive stride, negative strides = flips), in any order and of any length, is matched;
 the target may carry the same frame of reference or none. -/
-theorem match_complete_chain {α : Type} (src : Vol α) (g tgt : Geom) (tol : Rat) (c : α)
+theorem match_complete_chain {α : Type} (src : Vol α) (g tgt : Geom) (tol : Rat) (c : PadMode α)
     (hwf : WF src.geom) (hsrc : ∀ i, 1 ≤ src.geom.shape i) (h0 : 0 < tol) (h1 : tol ≤ 1)
     (hchain : Chain src.geom g)
     (hsame : tgt.dir = g.dir ∧ tgt.spacing = g.spacing ∧ tgt.pos = g.pos ∧ tgt.shape = g.shape ∧ tgt.cs = g.cs)
@@ -148,17 +215,19 @@ the padding value elsewhere. -/
 theorem match_reachable_spec {α : Type} (src : Vol α) (tgt : Geom) (tol : Rat) (c : α)
     (hwf : WF src.geom) (hshape : ∀ i, 1 ≤ tgt.shape i) (h0 : 0 < tol) (h1 : tol ≤ 1)
     (hr : Reachable src.geom tgt) :
-    ∃ r, matchGeometry src tgt tol c = .ok r ∧ (∀ i, r.geom.col i = tgt.col i) ∧ r.geom.pos = tgt.pos ∧
+    ∃ r, matchGeometry src tgt tol (.constant c) = .ok r ∧ (∀ i, r.geom.col i = tgt.col i) ∧ r.geom.pos = tgt.pos ∧
       ∀ k, InShape tgt.shape k →
         (∀ i, InShape src.geom.shape i → src.geom.toRef (toRat i) = tgt.toRef (toRat k) → r.vox k = src.vox i) ∧
         ((∀ i, InShape src.geom.shape i → src.geom.toRef (toRat i) ≠ tgt.toRef (toRat k)) → r.vox k = c) := by
-  obtain ⟨r, hr1, hcol, hpos, hsh⟩ := match_complete src tgt tol c hwf hshape h0 h1 hr
+  obtain ⟨r, hr1, hcol, hpos, hsh⟩ := match_complete src tgt tol (.constant c) hwf hshape h0 h1 hr
   have href : ∀ k, r.geom.toRef k = tgt.toRef k := by
     intro k; simp only [Geom.toRef, hcol, hpos]
   refine ⟨r, hr1, hcol, hpos, fun k hk => ?_⟩
   have hk' : InShape r.geom.shape k := fun a => by rw [hsh a]; exact hk a
-  have := (match_sound src tgt tol c r hwf.det_ne_zero hr1).2 k hk'
-  simpa only [href] using this
+  have h1 := ((match_sound src tgt tol (.constant c) trivial r hwf.det_ne_zero hr1).2 k hk').1
+  have h2 := match_sound_constant src tgt tol c r hwf.det_ne_zero hr1 k hk'
+  simp only [href] at h1 h2
+  exact ⟨h1, h2⟩
 
 /-! ## Clause 3: index mapping between two volumes -/
 
@@ -304,20 +373,20 @@ example : Reachable exSrc.geom exTgt := by
 
 /-- the model run on this pair: matched; voxel (0,1,0) of the result is source voxel (0,1,3), voxel
 (1,2,1) is source voxel (1,2,1), voxels (0,0,0) and (2,1,0) lie outside the source: padding -/
-example : (match matchGeometry exSrc exTgt (1 / 100000) (-7) with
+example : (match matchGeometry exSrc exTgt (1 / 100000) (.constant (-7)) with
     | .ok r => r.vox (mk3 0 1 0) == 13 && r.vox (mk3 1 2 1) == 121 && r.vox (mk3 0 0 0) == -7 && r.vox (mk3 2 1 0) == -7
         && r.geom.shape 0 == 3 && r.geom.shape 1 == 4 && r.geom.shape 2 == 2
     | .error _ => false) = true := by decide +kernel
 
 /-- the same target shifted by a quarter of a source voxel, scaled by 3/2, or in another frame of
 reference is refused -/
-example : (match matchGeometry exSrc { exTgt with pos := ⟨9 + 1 / 4, 20 + 1 / 2, 36⟩ } (1 / 100000) (-7) with
+example : (match matchGeometry exSrc { exTgt with pos := ⟨9 + 1 / 4, 20 + 1 / 2, 36⟩ } (1 / 100000) (.constant (-7)) with
     | .ok _ => false
     | .error e => e == .runtime) = true := by decide +kernel
-example : (match matchGeometry exSrc { exTgt with spacing := mk3 3 1 (1 / 2) } (1 / 100000) (-7) with
+example : (match matchGeometry exSrc { exTgt with spacing := mk3 3 1 (1 / 2) } (1 / 100000) (.constant (-7)) with
     | .ok _ => false
     | .error e => e == .runtime) = true := by decide +kernel
-example : (match matchGeometry exSrc { exTgt with frameOfRef := some "9.9" } (1 / 100000) (-7) with
+example : (match matchGeometry exSrc { exTgt with frameOfRef := some "9.9" } (1 / 100000) (.constant (-7)) with
     | .ok _ => false
     | .error e => e == .runtime) = true := by decide +kernel
 
